@@ -291,7 +291,9 @@ def run(ctx):
               f"({n_ex} sequences); generated: lists of parametrised operations up to length {ctx.n(60, 200)}; "
               "non-trivial = an append after a compactify that removed a non-last particle. "
               "output: pid strictly increasing and pid[k] >= k in every record of generated end-to-end runs "
-              "(non-trivial = a record written after a death)"),
+              "(non-trivial = a record written after a death); output_warm: the same laws in the records of a run "
+              "warm-started from a drawn file boundary, plus: a new particle never gets an identifier that was in "
+              "use before the restart"),
         exhaustive=False,
         extra={"exhaustive_part": {"alphabet": [list(map(str, a)) for a in ALPHABET], "max_length": maxlen,
                                    "sequences": n_ex, "complete": True}},
@@ -301,8 +303,8 @@ def run(ctx):
 
 
 def replay(part, case):
-    if part == "output":
+    if part in ("output", "output_warm"):
         from checks import c06
 
-        return c06.pid_law_oracle(case)
+        return c06.pid_law_warm_oracle(case) if part == "output_warm" else c06.pid_law_oracle(case)
     return seq_oracle(case)
